@@ -241,6 +241,7 @@ func checkC14(c *Check) {
 	for _, wh := range whs {
 		arg := wh.Common().Args[0]
 		pos := p.Pos(wh.Pos())
+		flagOff := EdgeSet{}
 		// a status that travels next to a "has status" flag (two results of a selection helper): where the flag is
 		// true the status is the value that was chosen together with it
 		if ph, isPhi := strip(arg).(*ssa.Phi); isPhi {
@@ -270,6 +271,7 @@ func checkC14(c *Check) {
 				}
 				if chosen != nil && same {
 					arg = chosen
+					flagOff = union(flagOff, edgesWhere(lit, cBool(vIs(fl)), false))
 				}
 			}
 		}
@@ -284,6 +286,23 @@ func checkC14(c *Check) {
 			g1, _ := guardedBy(lit, kindInt, isInstr(wh))
 			g2, _ := guardedBy(lit, two, isInstr(wh))
 			c.Cond(g1 && g2 && len(kindInt) > 0 && len(two) > 0, key+":status-from-int", pos, "int(vals[0].Int()) only in the two-value case with vals[0].Kind() == Int", "the handler's int is used as status outside the (int, x) shape")
+			// … and always there: once the (int, x) shape is recognised no return is reached without the status
+			// having been sent (a status remembered and sent only behind later tests is lost for e.g. an empty body)
+			sent := true
+			var badPath string
+			for e := range kindInt {
+				if g, _ := guardedBy(lit, two, func(in ssa.Instruction) bool { return in.Block() == e.B }); !g {
+					continue
+				}
+				if in, path := (Query{Fn: lit, Cut: flagOff, Avoid: isInstr(wh)}).Reach(e.B.Succs[e.S], 0, isReturn); in != nil {
+					sent, badPath = false, blockPath(path)
+				}
+			}
+			if sent {
+				c.OK(key+":status-always-sent", pos, "from the (int, x) shape every path to a return passes WriteHeader(int)", 1)
+			} else {
+				c.Bad(key+":status-always-sent", pos, "the (int, x) shape can return without the handler's status having been sent", badPath)
+			}
 		default:
 			c.Bad(key+":status", pos, "unexpected status "+vstr(arg)+": the table only knows 500 for errors and the handler's own int")
 		}
